@@ -244,6 +244,17 @@ EncEsdsPadded(v) ==
                             \o Desc4(5, EncASC([object_type |-> d.profile, freq_index |-> d.freq_index, chan_conf |-> d.chan_conf])))
                 \o Desc4(6, <<2>>)))
 
+\* same content with a long AudioSpecificConfig (the configuration proper followed by 130 zero bytes of
+\* extension): the three enclosing descriptor lengths need two bytes each in the minimal form (>= 128)
+EncEsdsLong(v) ==
+  LET c == v.es_desc.dec_config  d == c.dec_specific IN
+  Full(ESDS, v.version, v.flags,
+       Desc(3, BE(v.es_desc.es_id, 2) \o <<0>>
+               \o Desc(4, << c.object_type_indication, c.stream_type * 4 + c.up_stream + 1 >>
+                           \o BE(c.buffer_size_db, 3) \o ToBE(c.max_bitrate, 4) \o ToBE(c.avg_bitrate, 4)
+                           \o Desc(5, EncASC([object_type |-> d.profile, freq_index |-> d.freq_index, chan_conf |-> d.chan_conf]) \o [i \in 1..130 |-> 0]))
+               \o Desc(6, <<2>>)))
+
 \* first descriptor with the given tag in [o, hi)
 RECURSIVE FindDesc(_, _, _, _, _)
 FindDesc(b, o, hi, tag, fuel) ==
